@@ -17,18 +17,18 @@ import (
 const modulePath = "github.com/protolambda/zrnt"
 
 type Gen struct {
-	repo       string
-	fset       *token.FileSet
-	prog       *ssa.Program
-	pkgs       map[string]*packages.Package
-	spkgs      map[string]*ssa.Package
-	db         *SpecDB
-	ghostSorts map[string]string
-	nonNilGlob map[*ssa.Global]int
-	loadErrs   []string
-	heapReg map[string]func(*Sess)
-	allocCache map[*ssa.Function]map[string]bool // struct sort ids a function may allocate ("*" = anything)
-	inlineForReplay bool // replay mode: in-repo callees are inlined instead of replaced by their contracts
+	repo            string
+	fset            *token.FileSet
+	prog            *ssa.Program
+	pkgs            map[string]*packages.Package
+	spkgs           map[string]*ssa.Package
+	db              *SpecDB
+	ghostSorts      map[string]string
+	nonNilGlob      map[*ssa.Global]int
+	loadErrs        []string
+	heapReg         map[string]func(*Sess)
+	allocCache      map[*ssa.Function]map[string]bool // struct sort ids a function may allocate ("*" = anything)
+	inlineForReplay bool                              // replay mode: in-repo callees are inlined instead of replaced by their contracts
 }
 
 func (g *Gen) ghostSort(k string) string {
@@ -474,6 +474,12 @@ func (fe *FnEnc) atExit() {
 		o.Cover = true
 	}
 	fe.frameCheck(ev, pos)
+	{
+		// cover:exit — everything assumed along the way (callee contracts, axioms met by the body's
+		// terms, loop invariants) is still satisfiable: an inconsistent assumption would prove every post
+		o := fe.oblig("cover", "exit", "false", "assumptions made in the body are satisfiable", pos)
+		o.Cover = true
+	}
 	if ct.Opts["noalloc"] != "" {
 		var gs []string
 		for _, gk := range sortedKeys(fe.mem.ghost) {
